@@ -54,6 +54,10 @@ def run(ctx):
     known_ids = set(k["id"] for k in ctx.known_for())
 
     # the known false negatives, reproduced on every run
+    # Go-source regression programs of repaired findings (parenthesised / converted nil, parenthesised callees,
+    # package-level initialisers, init shadowing, endless loops, deferred calls)
+    from . import markers
+    markers.corpus_modules(ctx, "c01r", "nil flows through spellings of repaired findings")
     corpus = PC.cases()
     rc = PF.run_suite(ctx, corpus, nb=8)
     ctx.obligation("corpus of known false negatives ran", "error" not in rc)
